@@ -1,0 +1,64 @@
+//! Verification hook (compiled only with `--cfg genmeta_gm_quic_verif`): lets a test harness
+//! make an honest endpoint append pre-encoded frame bytes to its next 1-RTT packet, so the
+//! peer processes hostile but well-formed frames through its real receive path.
+use std::{
+    collections::VecDeque,
+    sync::{Mutex, OnceLock},
+};
+
+use bytes::BufMut;
+use qbase::{
+    frame::PingFrame,
+    net::tx::Signals,
+    packet::{Package, PacketContent},
+    role::Role,
+};
+
+type Queues = Mutex<[VecDeque<Vec<u8>>; 2]>;
+
+fn queues() -> &'static Queues {
+    static QUEUES: OnceLock<Queues> = OnceLock::new();
+    QUEUES.get_or_init(|| Mutex::new([VecDeque::new(), VecDeque::new()]))
+}
+
+fn index(role: Role) -> usize {
+    match role {
+        Role::Client => 0,
+        Role::Server => 1,
+    }
+}
+
+/// Queue raw frame bytes to be sent by the next 1-RTT packet of any connection with `role` in
+/// this process. The sender must be woken by ordinary traffic.
+pub fn inject_raw_frames(role: Role, frames: Vec<u8>) {
+    queues().lock().unwrap()[index(role)].push_back(frames);
+}
+
+/// Number of injections still queued for `role`.
+pub fn pending_injections(role: Role) -> usize {
+    queues().lock().unwrap()[index(role)].len()
+}
+
+pub struct InjectSource(pub Role);
+
+impl<Target> Package<Target> for InjectSource
+where
+    Target: BufMut + ?Sized,
+    PingFrame: Package<Target>,
+{
+    fn dump(&mut self, target: &mut Target) -> Result<PacketContent, Signals> {
+        let mut queues = queues().lock().unwrap();
+        let queue = &mut queues[index(self.0)];
+        let Some(frames) = queue.front() else {
+            return Err(Signals::empty());
+        };
+        if target.remaining_mut() < 1 + frames.len() {
+            return Err(Signals::CONGESTION);
+        }
+        let frames = queue.pop_front().unwrap();
+        // a recorded PING makes the packet ack-eliciting and in flight and consumes its number
+        let content = PingFrame.dump(target)?;
+        target.put_slice(&frames);
+        Ok(content)
+    }
+}
